@@ -3,6 +3,8 @@ C17 — witnesses: clauses of the property that are false of the current code, o
 (mirrored by `finding:` lines of known_findings.txt and by the replay functions of py/props/c17.py).
 -/
 import WpModel.Props.C17
+import WpModel.Model.LaidOut
+import WpModel.Props.C17Parts
 import WpModel.Lemmas.ToUnicode
 
 set_option linter.unusedSimpArgs false
@@ -79,6 +81,32 @@ theorem inline_root_background_not_first :
     point7With, point7List, lastIsLine, Kind.drawReplaced, outlineList, ownOutline, inlKids, inlBoxWith,
     decoration, drawBackground, drawBorder, drawText, Kind.dilInlineOrLine, Kind.dilTextChild, Node.attrs?,
     Kind.drawLine]
+
+/-- The box of `<p style="visibility:collapse; background:#000004; border:1px solid #000006">` as laid out. -/
+def collapsedBox : Attrs :=
+  let bg := boxBackground false ⟨.collapse, some 4, 0⟩
+  { plain 1 .BlockBox with visible := false, bg := bg, border := some 6, borderSides := 4 }
+
+/-- Known finding `collapse-paints-background`: `<p style="visibility:collapse; background:…">`.  CSS 2.1
+11.2 gives `collapse` the meaning of `hidden` on everything but table rows / columns (and there the box is
+removed), so no background is due; `layout_box_backgrounds` keeps it (its test is `== 'hidden'`), while the
+border and the text of the same box are skipped (`drawBorder` / `drawText` test `visible`): the box paints
+its background only. -/
+theorem collapse_keeps_background :
+    boxBackground false ⟨.collapse, some 4, 0⟩ = some (some 4) ∧
+    boxBackground false ⟨.hidden, some 4, 0⟩ = none ∧
+    decoration collapsedBox {} = [.paint .bg 1 4 { clips := [.bgBoxes .bg 1, .bgArea .bg 1] }] := by
+  refine ⟨by decide, by decide, ?_⟩
+  simp [collapsedBox, decoration, drawBackground, drawBorder, plain, boxBackground, StyleBg.hidden, Env.clip]
+
+/-- Known finding `row-group-background-first-row-only`: `<tbody style="background:…">` with two rows of one
+30 × 20 cell each, at y = 10 and y = 30 (the group is 40 high).  The painting area is (10, 10, 30, 20) — as
+high as the highest cell — so the cell of the second row, through whose border box the background is to be
+painted (CSS 2.1 17.5.1), lies outside it. -/
+theorem group_background_misses_second_row :
+    (Wp.TablePart.groupLayer { exCell 10 with height := 40 } [[exCell 10], [exCell 30]]).1 = (10, 10, 30, 20) ∧
+    Wp.TablePart.covers (10, 10, 30, 20) (exCell 10) ∧ ¬ Wp.TablePart.covers (10, 10, 30, 20) (exCell 30) := by
+  refine ⟨by decide +kernel, by decide +kernel, by decide +kernel⟩
 
 end Wp.C17.Witness
 
